@@ -705,7 +705,7 @@ fn check_full_expr(env: &Env, e: &Expr, in_condition: bool, ex: &Excl) -> Option
             Expr::Bin(op, a, b)
                 if ex.has("nested_assign_in_compare")
                     && (op.is_cmp() || *op == BinOp::Shr)
-                    && (matches!(**a, Expr::Assign(_, _, _)) || (op.is_cmp() && matches!(**b, Expr::Assign(_, _, _)))) =>
+                    && (yields_assign(a) || (op.is_cmp() && yields_assign(b))) =>
             {
                 hit = Some("nested_assign_in_compare");
             }
@@ -1031,4 +1031,14 @@ pub fn find_excluded(p: &Program, ex: &Excl) -> Option<&'static str> {
         }
     }
     None
+}
+
+/// the value of the expression is (on some path) the value of a nested assignment
+fn yields_assign(e: &Expr) -> bool {
+    match e {
+        Expr::Assign(_, _, _) => true,
+        Expr::Ternary(_, a, b) => yields_assign(a) || yields_assign(b),
+        Expr::Comma(_, b) => yields_assign(b),
+        _ => false,
+    }
 }
